@@ -203,10 +203,8 @@ def _input(metadata: AS.Metadata, argv: Sequence[AS.Value]) -> EvalIOContext:
             return AS.String(input(""))
         except EOFError:
             return AS.Nil()
-        except OSError as err:
-            raise error.UnsuspectedHangeulOSError(
-                metadata, f"운영체제 오류 errno={err.errno}", err.errno
-            ) from None
+        except (OSError, ValueError) as err:  # ValueError: closed stream
+            raise _translate_io_error(metadata, err) from None
         yield
 
     return AS.IO("ㄹ", tuple(argv), _fn)
@@ -221,10 +219,8 @@ def _print(metadata: AS.Metadata, argv: Sequence[AS.Value]) -> EvalIOContext:
         del do_IO  # Unused
         try:
             print(content.value, flush=True)
-        except OSError as err:
-            raise error.UnsuspectedHangeulOSError(
-                metadata, f"운영체제 오류 errno={err.errno}", err.errno
-            ) from None
+        except (OSError, ValueError) as err:  # ValueError: closed stream
+            raise _translate_io_error(metadata, err) from None
         return AS.Nil()
         yield
 
